@@ -29,6 +29,14 @@
         `C12_link_focus_proved  : C12_link_fun2core → C12_link_fun2core_strict → C12_link_focus`
         `C12_link_shrink_proved : C12_link_fun2core → C12_link_fun2core_strict → C12_link_shrink`
         `C12_chain_mid`         : C12 from the fun2core links and the code-generator link alone.
+  NOTE (pf-typ-fun2core, Scc/Props/C12Fun2Core.lean, C12Fun2CoreStrict.lean): over ARBITRARY ASTs both
+  `C12_link_fun2core` and `C12_link_fun2core_strict` are false (`C12_link_fun2core_false`: a variable named
+  `ς`; `C12_link_fun2core_strict_false`: a data type named `_Cont` — `programNamesOk` accepts both names,
+  the real lexer neither), so the conditional theorems `C12_link_*_proved` / `C12_chain_mid` below cannot
+  be instantiated as they stand.  The UNCONDITIONAL content of this file is `C12_mid_typed` (per C03 input
+  `q2`) and `C12_linkChecks_of_midChecks` (per program); `C12Fun2CoreStrict.lean` composes `C12_mid_typed`
+  with the proved fun2core facts (extra premises `C02_noSigmaNames`, `C12_noContType`) into
+  `C12_S1_S5_proved` / `C12_chain_codegen_only`.
   Per program: `C12_midChecks p'` (stages succeed; S2 is `Input`, `typesDisjoint`, `strictOk`) implies
   `C12_linkChecks p'` — the S3 / S4 conjuncts of `C12_linkChecks` are now derived, not evaluated.
 -/
